@@ -6,22 +6,22 @@ CONSTANTS
   Lists <- NoLists
   ReorgPairs <- NoReorgs
   Dts = {1}
-  SubmitSet <- SubT
+  SubmitSet <- SubB
   TestSet <- NoTx
-  PrioSet <- PrioT
-  Ticks <- TicksQ
+  PrioSet <- PrioB
+  Ticks <- NoTicks
   MaxBlocks = 0
   MaxDisc = 0
   MaxReorg = 0
-  MaxPrio = 1
-  MaxTicks = 1
+  MaxPrio = 2
+  MaxTicks = 0
   MaxExpire = 0
   MinRelay = 100
   IncrRelay = 100
   Expiry = 1209600
   MaxReplClusters = 100
   MaxClusterCount = 64
-  Ext <- ExtT
+  Ext <- ExtB
 INIT Init
 NEXT Next
 VIEW View0
